@@ -62,6 +62,7 @@ var passThrough = map[string]bool{"any": true, "container.FuncSingletonFactory":
 var inPlace = map[string]bool{"sort2.Slice": true, "sort.Slice": true, "sort.SliceStable": true}
 
 type tr struct {
+	named   []string        // named results: a bare `return` returns them
 	recv    string          // receiver variable name ("" for plain functions)
 	pkgs    map[string]bool // imported package names of the file
 	tparams map[string]bool // type parameters (generic functions)
@@ -489,6 +490,13 @@ func (t *tr) stmt(s ast.Stmt) []string {
 		}
 		return []string{fmt.Sprintf(".range %s %s %s %s", lq(k), lq(v), t.expr(x.X), t.block(x.Body.List))}
 	case *ast.ReturnStmt:
+		if len(x.Results) == 0 && len(t.named) > 0 {
+			var vs []string
+			for _, n := range t.named {
+				vs = append(vs, fmt.Sprintf("(.var %s)", lq(n)))
+			}
+			return []string{fmt.Sprintf(".ret [%s]", strings.Join(vs, ", "))}
+		}
 		return []string{fmt.Sprintf(".ret %s", t.list(x.Results))}
 	case *ast.BranchStmt:
 		if x.Label == nil {
@@ -537,10 +545,34 @@ func progOf(repo string, sp progSpec) string {
 		}
 	}
 	params := t.names(fd.Type.Params)
+	body := t.block(fd.Body.List)
+	// named results are variables initialised to their zero values
+	if fd.Type.Results != nil {
+		var pre []string
+		for _, f := range fd.Type.Results.List {
+			for _, n := range f.Names {
+				z := zeroOf(f.Type)
+				if id, ok := f.Type.(*ast.Ident); ok && t.tparams[id.Name] {
+					z = ".nil" // zero value of a type parameter: modelled as nil
+				}
+				t.named = append(t.named, n.Name)
+				pre = append(pre, fmt.Sprintf(".define [%s] %s", lq(n.Name), z))
+			}
+		}
+		if len(pre) > 0 {
+			body = t.block(fd.Body.List) // re-translate: bare returns now know the named results
+			inner := strings.TrimSuffix(strings.TrimPrefix(body, "["), "]")
+			if inner == "" {
+				body = "[" + strings.Join(pre, ",\n  ") + "]"
+			} else {
+				body = "[" + strings.Join(pre, ",\n  ") + ",\n  " + inner + "]"
+			}
+		}
+	}
 	return fmt.Sprintf("/-- %s %s%s (%s:%d) -/\ndef %s : Func := { name := %s, params := %s, body := %s }\n",
 		sp.dir, map[bool]string{true: sp.recv + ".", false: ""}[sp.recv != ""], sp.fn,
 		filepath.Base(fset.Position(fd.Pos()).Filename), fset.Position(fd.Pos()).Line,
-		sp.lean, lq(sp.fn), qlist(params), t.block(fd.Body.List))
+		sp.lean, lq(sp.fn), qlist(params), body)
 }
 
 func progsFile(repo string) string {
